@@ -855,12 +855,11 @@ theorem simE (lp : Option (Name × Name)) (pb pc : Nat) :
       cases hO : execTB cfg (callValue₀ cfg) (execIncludes₀ cfg) lp.isSome b j f l base st with
       | norm l1 st1 f1 =>
         show execM₀ cfg f1 P l1 base _ st1 = (stmtSkip cfg f1 l1 st1).bind _ _ _
-        rw [bind_stmtSkip]
-        refine Eq.trans (congrArg (fun n => execM₀ cfg f1 P l1 base n st1) ?_)
-          (exec_label cfg f1 P l1 base _ st1 done hg)
-        · simp only [List.length_append, List.length_cons, List.length_nil]; omega
-        · congr 1; funext l st f; congr 1
-          simp only [List.length_append, List.length_cons, List.length_nil]; omega
+        rw [bind_stmtSkip, show (pre ++ [Stmt.jump done none, Stmt.label cur]).length + (lowerB lp b j).1.length
+            = pre.length + 2 + (lowerB lp b j).1.length by simp,
+          exec_label cfg f1 P l1 base _ st1 done hg]
+        congr 1; funext l st f; congr 1
+        simp only [List.length_append, List.length_cons, List.length_nil]; omega
       | brk l1 st1 f1 => rfl
       | cont l1 st1 f1 => rfl
       | ret v st1 => rfl
@@ -897,5 +896,191 @@ theorem simE (lp : Option (Name × Name)) (pb pc : Nat) :
       exact eq_of_pos cfg P base h1 (by simp [elseEntry])
         (by simp only [List.length_append, List.length_cons, List.length_nil]; omega)
 end
+
+/-! ## outside a loop the ticked semantics never yields `break` / `continue` -/
+
+/-- the outcome is not `break` / `continue` -/
+def NoBC : TOut W → Prop
+  | .brk _ _ _ => False
+  | .cont _ _ _ => False
+  | _ => True
+
+theorem LoopOK.noBC {f : Nat} {o : TOut W} (h : LoopOK f o) : NoBC o := by
+  cases o <;> simp_all [LoopOK, NoBC]
+
+theorem noBC_then {o : TOut W} (h : NoBC o) (g : Option Env → State W → Nat → TOut W)
+    (hg : ∀ l st f, NoBC (g l st f)) : NoBC (match o with | .norm l st f => g l st f | o' => o') := by
+  cases o <;> simp_all [NoBC]
+
+theorem tick_noBC (f : Nat) (st : State W) (k : Nat → State W → TOut W) (h : ∀ f' st1, NoBC (k f' st1)) :
+    NoBC (tick cfg f st k) := by
+  cases f with
+  | zero => simp [tick, NoBC]
+  | succ f => simp only [tick]; split
+              · simp [NoBC]
+              · exact h _ _
+
+theorem stmtExpr_noBC (cv : CallAt W) (n : Option Name) (e : Expr) (f : Nat) (l : Option Env) (st : State W) :
+    NoBC (stmtExpr cfg cv n e f l st) := by
+  unfold stmtExpr; apply tick_noBC; intro f' st1
+  cases evalExpr cfg (cv f') l e st1 with
+  | ok v st2 => cases n <;> simp [NoBC]
+  | err e st2 => simp [NoBC]
+  | oof => simp [NoBC]
+
+theorem stmtCond_noBC (cv : CallAt W) (c : Expr) (f : Nat) (l : Option Env) (st : State W)
+    (k : Bool → Nat → State W → TOut W) (h : ∀ t f' st2, NoBC (k t f' st2)) : NoBC (stmtCond cfg cv c f l st k) := by
+  unfold stmtCond; apply tick_noBC; intro f' st1
+  cases evalExpr cfg (cv f') l c st1 with
+  | ok v st2 => exact h _ _ _
+  | err e st2 => simp [NoBC]
+  | oof => simp [NoBC]
+
+theorem stmtSkip_noBC (f : Nat) (l : Option Env) (st : State W) : NoBC (stmtSkip cfg f l st) := by
+  unfold stmtSkip; apply tick_noBC; intros; simp [NoBC]
+
+mutual
+theorem execTS_noBC (cv : CallAt W) (ei : InclAt W) :
+    ∀ (s : SStmt) (i f : Nat) (l : Option Env) (base : Option String) (st : State W),
+      NoBC (execTS cfg cv ei false s i f l base st)
+  | .expr n e, i, f, l, base, st => by rw [execTS]; exact stmtExpr_noBC ..
+  | .ret none, i, f, l, base, st => by rw [execTS]; apply tick_noBC; intros; simp [NoBC]
+  | .ret (some e), i, f, l, base, st => by
+      rw [execTS]; apply tick_noBC; intro f' st1
+      cases evalExpr cfg (cv f') l e st1 <;> simp [NoBC]
+  | .label _, i, f, l, base, st => by rw [execTS]; exact stmtSkip_noBC ..
+  | .jump _ _, i, f, l, base, st => by rw [execTS]; simp [NoBC]
+  | .include incs, i, f, l, base, st => by
+      rw [execTS]; apply tick_noBC; intro f' st1
+      cases ei f' base incs st1 <;> simp [NoBC]
+  | .brk, i, f, l, base, st => by rw [execTS]; simp [NoBC]
+  | .cont, i, f, l, base, st => by rw [execTS]; simp [NoBC]
+  | .func _ _ _ _ _ _, i, f, l, base, st => by rw [execTS]; apply tick_noBC; intros; simp [NoBC]
+  | .ite c t e, i, f, l, base, st => by
+      rw [execTS]
+      apply stmtCond_noBC; intro tk f' st1
+      cases tk
+      · simp only [Bool.false_eq_true, if_false]
+        exact noBC_then (execTB_noBC cv ei t (i+1) f' l base st1) _ (fun l2 st2 f2 => stmtSkip_noBC ..)
+      · simp only [if_true]; exact execTE_noBC cv ei e _ f' l base st1
+  | .while c b, i, f, l, base, st => by
+      rw [execTS]
+      apply stmtCond_noBC; intro tk f' st1
+      cases tk
+      · simp only [Bool.false_eq_true, if_false]
+        refine noBC_then (stmtSkip_noBC cfg f' l st1) _ ?_
+        intro l2 st2 f2
+        exact (loopW_ok cfg cv c _ (fun f l s => execTB_ok cfg cv ei true b (i+1) f l base s) (f2+1) f2 l2 st2).noBC
+      · simp [NoBC]
+  | .for v ix vals b, i, f, l, base, st => by
+      rw [execTS]
+      refine noBC_then (stmtExpr_noBC ..) _ ?_
+      intro l1 st1 f1
+      refine noBC_then (stmtExpr_noBC ..) _ ?_
+      intro l2 st2 f2
+      apply stmtCond_noBC; intro tk f3 st3
+      cases tk
+      · simp only [Bool.false_eq_true, if_false]
+        refine noBC_then (stmtExpr_noBC ..) _ ?_
+        intro l4 st4 f4
+        refine noBC_then (stmtSkip_noBC ..) _ ?_
+        intro l5 st5 f5
+        exact (loopF_ok cfg cv i v _ _ _ (fun f l s => execTB_ok cfg cv ei true b (i+1) f l base s) (f5+1) f5 l5 st5).noBC
+      · simp [NoBC]
+theorem execTB_noBC (cv : CallAt W) (ei : InclAt W) :
+    ∀ (B : List SStmt) (i f : Nat) (l : Option Env) (base : Option String) (st : State W),
+      NoBC (execTB cfg cv ei false B i f l base st)
+  | [], i, f, l, base, st => by rw [execTB]; simp [NoBC]
+  | s :: ss, i, f, l, base, st => by
+      rw [execTB]
+      exact noBC_then (execTS_noBC cv ei s i f l base st) _ (fun l1 st1 f1 => execTB_noBC cv ei ss _ f1 l1 base st1)
+theorem execTE_noBC (cv : CallAt W) (ei : InclAt W) :
+    ∀ (e : SElse) (i f : Nat) (l : Option Env) (base : Option String) (st : State W),
+      NoBC (execTE cfg cv ei false e i f l base st)
+  | .none, i, f, l, base, st => by rw [execTE]; simp [NoBC]
+  | .els b, i, f, l, base, st => by
+      rw [execTE]
+      exact noBC_then (execTB_noBC cv ei b i f l base st) _ (fun l1 st1 f1 => stmtSkip_noBC ..)
+  | .elif c t e, i, f, l, base, st => by
+      rw [execTE]
+      apply stmtCond_noBC; intro tk f' st1
+      cases tk
+      · simp only [Bool.false_eq_true, if_false]
+        exact noBC_then (execTB_noBC cv ei t (i+1) f' l base st1) _ (fun l2 st2 f2 => stmtSkip_noBC ..)
+      · simp only [if_true]; exact execTE_noBC cv ei e _ f' l base st1
+end
+
+/-! ## T2 -/
+
+/-- the result of a whole structured run (script or function body), as `Structured.runT` reads it off -/
+def toRes : TOut W → Res W
+  | .norm _ st _ => .done st
+  | .brk _ st _ => .done st
+  | .cont _ st _ => .done st
+  | .ret v st => .ret v st
+  | .err e st => .err e st
+  | .oof => .oof
+
+/-- **T2 for a function body** (or any block lowered outside a loop, at any value `i` of the label counter): the machine
+on the lowered block equals the ticked structured semantics followed by whatever the machine does at the end of the
+list — for every fuel, locals, include base and state. -/
+theorem lower_exact_body (B : List SStmt) (i : Nat) (h : NoRawB B) (f : Nat) (l : Option Env) (st : State W) :
+    execM₀ cfg f (lowerB none B i).1 l base 0 st =
+      (execTB cfg (callValue₀ cfg) (execIncludes₀ cfg) false B i f l base st).bind
+        (fun l st f => execM₀ cfg f (lowerB none B i).1 l base (lowerB none B i).1.length st)
+        (fun _ _ _ => .oof) (fun _ _ _ => .oof) := by
+  have h1 := simB cfg (lowerB none B i).1 base none 0 0 B i [] [] h (by intro bl cl e; cases e) (by simp)
+    (by intro K k _ _; simp) (by intro K k _ _; simp) f l st
+  have hn := execTB_noBC cfg (callValue₀ cfg) (execIncludes₀ cfg) B i f l base st
+  simp only [List.length_nil, Nat.zero_add, Option.isSome_none, Cont_def] at h1
+  rw [h1]
+  cases hO : execTB cfg (callValue₀ cfg) (execIncludes₀ cfg) false B i f l base st <;>
+    simp_all [TOut.bind, NoBC]
+
+/-- … and at the end of the list the machine stops: running a lowered body is running the structured body -/
+theorem run_body_eq (B : List SStmt) (i : Nat) (h : NoRawB B) (f : Nat) (l : Option Env) (st : State W) :
+    execM₀ cfg f (lowerB none B i).1 l base 0 st =
+      toRes (execTB cfg (callValue₀ cfg) (execIncludes₀ cfg) false B i f l base st) := by
+  rw [lower_exact_body cfg base B i h f l st]
+  cases hO : execTB cfg (callValue₀ cfg) (execIncludes₀ cfg) false B i f l base st with
+  | norm l1 st1 f1 => exact execM₀_end cfg f1 _ l1 base _ st1 (by simp)
+  | brk l1 st1 f1 =>
+    have hn := execTB_noBC cfg (callValue₀ cfg) (execIncludes₀ cfg) B i f l base st
+    rw [hO] at hn; exact hn.elim
+  | cont l1 st1 f1 =>
+    have hn := execTB_noBC cfg (callValue₀ cfg) (execIncludes₀ cfg) B i f l base st
+    rw [hO] at hn; exact hn.elim
+  | ret v st1 => rfl
+  | err e st1 => rfl
+  | oof => rfl
+
+/-- **T2 `lower_exact`**: the cache-free machine on the lowering of a structured program, started at statement 0, equals
+the ticked structured semantics of the program followed by the machine at the end of the statement list — an equation
+between functions of fuel, locals, include base, counter and state (no bound on program size or nesting). -/
+theorem lower_exact (B : List SStmt) (h : NoRawB B) (f : Nat) (l : Option Env) (st : State W) :
+    execM₀ cfg f (lowerProgram B) l base 0 st =
+      (execTB cfg (callValue₀ cfg) (execIncludes₀ cfg) false B 0 f l base st).bind
+        (fun l st f => execM₀ cfg f (lowerProgram B) l base (lowerProgram B).length st)
+        (fun _ _ _ => .oof) (fun _ _ _ => .oof) :=
+  lower_exact_body cfg base B 0 h f l st
+
+/-- running the lowered program *is* running the structured program (`Structured.runT` with the cache-free call /
+include runners): same result, same final state (globals, world, statement counter), same out-of-fuel behaviour -/
+theorem run_lowered_eq_runT (B : List SStmt) (h : NoRawB B) (f : Nat) (l : Option Env) (st : State W) :
+    execM₀ cfg f (lowerProgram B) l base 0 st =
+      match execTB cfg (callValue₀ cfg) (execIncludes₀ cfg) false B 0 f l base st with
+      | .norm _ st' _ => .done st'
+      | .brk _ st' _ => .done st'
+      | .cont _ st' _ => .done st'
+      | .ret v st' => .ret v st'
+      | .err e st' => .err e st'
+      | .oof => .oof :=
+  run_body_eq cfg base B 0 h f l st
+
+/-- `execute_script (parse_script text)` on the cache-free machine -/
+theorem execute₀_lowered (B : List SStmt) (h : NoRawB B) (f : Nat) (st : State W) :
+    execute₀ cfg f (lowerProgram B) base st =
+      toRes (execTB cfg (callValue₀ cfg) (execIncludes₀ cfg) false B 0 f none base { st with count := 0 }) :=
+  run_body_eq cfg base B 0 h f none _
 
 end C01
